@@ -20,8 +20,19 @@ def anchors(ctx):
         return None
     A['TDB'] = tdb[0]
     clo = P.closure_of_calls(tdb[0].id, kinds=('call', 'closure', 'fnref'))
-    rr = [P.fns[i] for i in clo if P.fns[i].kind != 'Closure' and ('std::vec::Vec<%s>' % REGION) in P.fns[i].raw.get('output', '')
-          and 'usize' in P.fns[i].raw.get('output', '') and 'Result' in P.fns[i].raw.get('output', '')]
+    def returns_regions_and_size(out):
+        """Result<..(Vec<Region>, .., usize)..> or Result<..S..> for a crate struct S with a Vec<Region> field and a usize field"""
+        if 'Result' not in out:
+            return False
+        if ('std::vec::Vec<%s>' % REGION) in out and 'usize' in out:
+            return True
+        for a in P.adts.values():
+            if a['kind'] == 'Struct' and len(a['variants']) == 1 and re.search(r'(?<![\w:])' + re.escape(a['path']) + r'(?![\w])', out):
+                tys = [f_['ty'] for f_ in a['variants'][0]['fields']]
+                if ('std::vec::Vec<%s>' % REGION) in tys and 'usize' in tys and len(tys) >= 3:
+                    return True
+        return False
+    rr = [P.fns[i] for i in clo if P.fns[i].kind != 'Closure' and returns_regions_and_size(P.fns[i].raw.get('output', ''))]
     if len(rr) != 1:
         ctx.fail_closed(['C01', 'C02', 'C03', 'C20'], 'R-ANCHOR', 'RR', 'expected one callee of the type builder returning Result<..(Vec<Region>, .., usize)..>, found %s' % [f.id for f in rr])
         return None
@@ -240,6 +251,9 @@ def rr_rules(ctx, A):
     if ret:
         e = ret[0]['expr']
         tup = e[2][0][1][2][0][1] if e[0] == 'agg' else None
+        if tup and tup[0] == 'agg' and tup[1] in P.adts and tup[2]:
+            # the result as a small struct instead of a tuple: same components
+            tup = ('tuple', [v for _k, v in tup[2]])
         if tup and tup[0] == 'tuple':
             us = [x for x in tup[1] if x[0] in ('var', 'arg') and rr.local_ty(x[1]) == 'usize']
             size_out = us[0] if us else None
